@@ -33,6 +33,41 @@ def _placeholders(tmpl: str) -> T.List[str]:
     return out
 
 
+def _substitution_mechanism(ctx, callfn) -> T.Tuple[str, str, str]:
+    """('format', text, loc) when every token of the split template is filled by str.format(**kwargs) / format_map;
+    ('sequential', description, loc) when a helper replaces one placeholder after the other."""
+    prog = ctx.prog
+    splits = [c for c, t in prog.calls_in(callfn) if t.kind == "ext" and t.name == "shlex.split"]
+    ctx.require(len(splits) == 1, "VCSAPI.__call__: expected one shlex.split call")
+    kw = callfn.kwarg
+    cands: T.List[ast.AST] = []
+    for n in ast.walk(callfn.node):
+        if isinstance(n, (ast.ListComp, ast.GeneratorExp)) and len(n.generators) == 1:
+            it = shapes.inline(callfn, n.generators[0].iter, prog)
+            if any(isinstance(c, ast.Call) and unparse(c.func) == unparse(splits[0].func) for c in ast.walk(it)) and isinstance(n.generators[0].target, ast.Name):
+                cands.append(n)
+    ctx.require(len(cands) == 1, "VCSAPI.__call__: the per-token substitution (comprehension over shlex.split) was not found")
+    comp = cands[0]
+    tok = comp.generators[0].target.id
+    elt = shapes.inline_simple_calls(prog, callfn, comp.elt)
+    if isinstance(elt, ast.Call) and isinstance(elt.func, ast.Attribute) and unparse(elt.func.value) == tok:
+        if elt.func.attr == "format" and not elt.args and [unparse(k.value) for k in elt.keywords if k.arg is None] == [kw] and all(k.arg is None for k in elt.keywords):
+            return "format", unparse(elt), callfn.loc(elt)
+        if elt.func.attr == "format_map" and len(elt.args) == 1 and unparse(elt.args[0]) == kw:
+            return "format", unparse(elt), callfn.loc(elt)
+    if isinstance(elt, ast.Call):
+        t = prog.resolve_call(callfn, elt, count=False)
+        if t.kind == "func" and t.fn is not None:
+            h = t.fn
+            for loop in [n for n in walk_no_nested(h.node) if isinstance(n, ast.For)]:
+                lvars = {x.id for x in ast.walk(loop.target) if isinstance(x, ast.Name)}
+                for _st, tg, val in shapes.iter_assigns(loop):
+                    if isinstance(val, ast.Call) and isinstance(val.func, ast.Attribute) and val.func.attr == "replace" and unparse(val.func.value) == unparse(tg) \
+                            and any(isinstance(x, ast.Name) and x.id in lvars for a in val.args for x in ast.walk(a)):
+                        return "sequential", f"{h.fq} rewrites `{unparse(tg)}` once per value (`{unparse(val)[:60]}`)", h.loc(val)
+    raise AnalysisError(f"C12/R1: per-token substitution not enumerated: `{unparse(comp.elt)[:80]}`")
+
+
 def run(ctx) -> None:
     prog, effects = ctx.prog, ctx.effects
     ctx.rule("R1", "tokenise before substituting: no kwargs-derived value reaches shlex.split / shell=True")
@@ -94,9 +129,23 @@ def run(ctx) -> None:
             ctx.check("R1", ok, f"{fn.fq} L{call.lineno}: command `{unparse(cmd)}` is a token list",
                       f"{fn.fq}: command passed to subprocess is not a token list",
                       f"`{unparse(cmd)}` does not derive from a tokenised template", loc=fn.loc(call))
+    # how a token's placeholders are filled: one simultaneous pass over the template token (str.format) - a substituted
+    # value is never scanned again for placeholders
+    mech = _substitution_mechanism(ctx, callfn)
+    if mech[0] == "format":
+        ctx.ok("R1", f"VCSAPI.__call__: each token is filled in one pass by `{mech[1]}`")
+    else:
+        ctx.bad("R1", "vcs.VCSAPI.__call__: placeholders are filled one after the other, so a substituted value is scanned again",
+                f"{mech[1]}: a value that contains the text of a later placeholder is altered (a tag message containing '{{tag}}' "
+                f"reaches git with the tag name spliced in), i.e. the message is not passed verbatim",
+                loc=mech[2], witness={"tag_message": "release {tag} notes", "tag": "v1.2.3", "argument seen by git": "release v1.2.3 notes"},
+                what="VCSAPI.__call__: each token is filled in one pass")
     ctx.floor("R1", "shlex.split sites in vcs", n_split, 1)
     ctx.floor("R1", "subprocess sites in vcs", n_proc, 2)
 
+    if mech[0] != "format":
+        ctx.observe("templates are not filled by str.format: the brace-grammar rules R2/R3 (which assume it) are not evaluated")
+        return
     # ------------------------------------------------------------ R2
     table = prog.const("vcs", "VCS_SUBCOMMANDS_BY_NAME")
     ctx.require(isinstance(table, dict) and {"git", "hg"} <= set(table), "VCS_SUBCOMMANDS_BY_NAME lost git/hg")
